@@ -6,7 +6,7 @@
     (HashBind.v).  [ap_ok] = every audit node is 32 bytes or DefaultLeaf (checkable). *)
 From Coq Require Import List Bool Arith NArith.
 From Verif Require Import Trie.Model Trie.Basics Trie.HashBind Trie.Proof Trie.ProofBasics
-  Trie.ProofSound Trie.ProofTop Trie.ProofComplete Trie.StateDBProof.
+  Trie.ProofSound Trie.ProofTop Trie.ProofComplete Trie.StateDBProof Trie.ChainProof.
 Import ListNotations.
 
 (** Completeness, present key: the proof merkleProof generates is accepted by VerifyInclusion
@@ -180,3 +180,22 @@ Theorem C11_account_var_absence_sound :
   (st' = w_st acct w /\ get (w_sto acct w) kv = None) \/ hash_break H.
 Proof. exact account_var_absence_sound. Qed.
 Print Assumptions C11_account_var_absence_sound.
+
+(** ---- chain level: GetStateAndProof / GetStateQuery through name resolution ---- *)
+
+(** The node resolves the requested account (address or registered name) to an address, proves
+    the account id of that address and labels the proof Key := address; a light client that
+    derives the trie key from the proof's own Key accepts it against the state root, for a
+    present and for an absent account, in every non-empty account trie.  (Labelling with the
+    bytes the caller sent instead — seeded change C11-r3 — breaks exactly this composition.) *)
+Theorem C11_chain_account_proof_complete :
+  forall (H : bytes -> bytes) (resolve : bytes -> bytes) (akey : bytes -> key),
+  (forall a, length (akey a) = 256) ->
+  forall t account, wf 256 t -> t <> E ->
+  let ans := node_account_proof H resolve akey t account in
+  match get t (akey (resolve account)) with
+  | Some v => snd (fst (fst (snd ans))) = true /\ client_check H akey (root H 256 t) ans v = true
+  | None => snd (fst (fst (snd ans))) = false /\ forall v, client_check H akey (root H 256 t) ans v = true
+  end.
+Proof. exact chain_account_proof_complete. Qed.
+Print Assumptions C11_chain_account_proof_complete.
